@@ -1,3 +1,73 @@
-/-! # C17 — (stub: property theorems go here; see docs/BUILDING.md) -/
+import PtVerif.Proofs.NeutronComposite
+/-!
+# C17 — the composite SLD calculator equals the direct calculation on the weighted sum
+
+Two independently modelled code paths of nsf.py: `neutron_composite_sld` (`sumPiece`,
+`compositeCompute`, `compositeSld`, `compositeSldV`: `_sum_piece`, `_compute` with its
+"duplicated from _calculate_scattering" block) and `neutron_scattering` on the formula
+`Σ wᵢ·mᵢ` built with `__rmul__`/`__add__` (`weighted`, C02's `rmulS`/`addS`, `Items.atoms`).
+Tie: `harness/ptv/props/C17.py`.
+-/
 namespace PtVerif.C17
+open PtModel PtModel.Neutron PtProofs.Neutron
+
+/-- **calculator = direct**, for every list of materials (any nesting), every weight vector of
+    the same length (any sign, zeros included), every density and wavelength: the three SLDs of
+    the calculator are those of `neutron_scattering(Σ wᵢ·mᵢ, density)`; `0, 0, 0` where the
+    direct calculation gives the vacuum tuple; `(None, None, None)` where it does (a material
+    with an atom whose SLD is unknown – behaviour after fixes/composite-missing-data.patch). -/
+theorem composite_eq_direct (t : Tbl ℝ) (ms : List (Items ℝ)) (ws : List ℝ) (ρ w : ℝ)
+    (hlen : ws.length = ms.length) :
+    compositeSld t (ms.map Items.atoms) w ws ρ
+      = compOf (neutronScattering t (weighted ws ms).atoms ρ w) :=
+  PtProofs.Neutron.composite_eq_direct t ms ws ρ w hlen
+
+/-- **zeros**: zero density or all weights zero gives `0, 0, 0` – from the calculator and from
+    the direct calculation -/
+theorem zero_gives_zeros (t : Tbl ℝ) (ms : List (Items ℝ)) (ws : List ℝ) (ρ w : ℝ)
+    (hlen : ws.length = ms.length) (hd : ∀ m ∈ ms, AllData t m.atoms)
+    (hz : ρ = 0 ∨ ∀ x ∈ ws, x = 0) :
+    compositeSld t (ms.map Items.atoms) w ws ρ = .zeros ∧
+      neutronSld t (weighted ws ms).atoms ρ w = some (0, 0, 0) :=
+  PtProofs.Neutron.zero_gives_zeros t ms ws ρ w hlen hd hz
+
+/-- **vector wavelength**: entry `i` of the calculator built for a wavelength vector is the
+    calculator built for the `i`-th wavelength … -/
+theorem vector_is_map (t : Tbl ℝ) (mats : List (List (Atom × ℝ))) (ws weights : List ℝ)
+    (ρ : ℝ) (i : Nat) (hi : i < ws.length) :
+    (compositeSldV t mats ws weights ρ).get? i = some (compositeSld t mats ws[i] weights ρ) :=
+  PtProofs.Neutron.composite_vector_is_map t mats ws weights ρ i hi
+
+/-- … and the outputs are shaped like the wavelength argument -/
+theorem shape_follows_wavelength (t : Tbl ℝ) (mats : List (List (Atom × ℝ))) (ws weights : List ℝ)
+    (ρ : ℝ) (l : List (ℝ × ℝ × ℝ)) (h : compositeSldV t mats ws weights ρ = .ok l) :
+    l.length = ws.length :=
+  PtProofs.Neutron.composite_vector_length t mats ws weights ρ l h
+
+/-! ### non-vacuity: two materials over the example table of C03 -/
+
+noncomputable def exTbl : Tbl ℝ where
+  recOf := fun z a =>
+    if z = 1 ∧ a = 0 then some ⟨-3.739, 0.3326, 82.02, 4.2e22, none⟩
+    else if z = 8 ∧ a = 0 then some ⟨5.803, 0.00019, 4.232, 4.3e22, none⟩
+    else none
+  mass := fun z _ => if z = 1 then 1.008 else 15.999
+  me := 0.00054858
+
+def exWater : Items ℝ := .cons 2 (.atom ⟨1, 0, 0⟩) (.cons 1 (.atom ⟨8, 0, 0⟩) .nil)
+def exO2 : Items ℝ := .cons 2 (.atom ⟨8, 0, 0⟩) .nil
+
+example : ∀ m ∈ [exWater, exO2], AllData exTbl m.atoms := by
+  intro m hm
+  rw [allData_atoms_iff]
+  intro a ha
+  simp at hm
+  rcases hm with rfl | rfl
+  · simp [exWater, itemsOccurs, fragOccurs] at ha
+    rcases ha with rfl | rfl <;> simp [exTbl, Tbl.neutron]
+  · simp [exO2, itemsOccurs, fragOccurs] at ha
+    subst ha; simp [exTbl, Tbl.neutron]
+
+example : ([0.5, 3] : List ℝ).length = [exWater, exO2].length := rfl
+
 end PtVerif.C17
